@@ -8,6 +8,8 @@ import (
 	"context"
 	"flag"
 	"fmt"
+	"os"
+	"path/filepath"
 	"sync/atomic"
 	"time"
 
@@ -170,6 +172,23 @@ func reentryMain(args []string) {
 					b.RegisterNode("after-all", mk(eventlogger.NodeTypeFilter))
 					b.SetSuccessThreshold("inner", 1)
 				})
+				// a stock sink whose write(2) fails (its file is a symbolic link to /dev/full): the retry path of
+				// FileSink.Process runs with the sink's own lock held; Send, a second Send and Reopen all return
+				if _, serr := os.Stat("/dev/full"); serr == nil && *out != "" {
+					fdir := filepath.Join(*out, fmt.Sprintf("full-%d-%v-%d", r, writers, pending))
+					os.MkdirAll(fdir, 0o700)
+					if os.Symlink("/dev/full", filepath.Join(fdir, "full.log")) == nil {
+						fb, _ := eventlogger.NewBroker()
+						fb.RegisterNode("jf", &eventlogger.JSONFormatter{})
+						fb.RegisterNode("fs", &eventlogger.FileSink{Path: fdir, FileName: "full.log"})
+						fb.RegisterPipeline(eventlogger.Pipeline{PipelineID: "pf", EventType: "full", NodeIDs: []eventlogger.NodeID{"jf", "fs"}})
+						ok = ok && watchdog("Send to a FileSink whose write fails", oracle, func() { fb.Send(ctx, "full", "x") })
+						ok = ok && watchdog("second Send to a FileSink whose write failed before", oracle, func() { fb.Send(ctx, "full", "y") })
+						ok = ok && watchdog("Reopen after a failed FileSink write", oracle, func() { fb.Reopen(ctx) })
+						ok = ok && watchdog("RemovePipelineAndNodes after a failed FileSink write", oracle, func() { fb.RemovePipelineAndNodes(ctx, "full", "pf") })
+					}
+					os.RemoveAll(fdir)
+				}
 				fresh, _ := eventlogger.NewBroker()
 				ok = ok && watchdog("Reopen on a fresh broker, then RegisterNode", oracle, func() {
 					fresh.Reopen(ctx)
